@@ -118,7 +118,17 @@ func parseRcptOptions(s string) *smtp.RcptOptions {
 		}
 	}
 	if m["rrvs"] != "nil" && m["rrvs"] != "" {
-		o.RequireRecipientValidSince = time.Unix(int64(atoi(m["rrvs"])), 0).UTC()
+		// N or N@OFFSET (seconds east of UTC): the same instant expressed in another zone
+		f := strings.SplitN(m["rrvs"], "@", 2)
+		t := time.Unix(int64(atoi(f[0])), 0).UTC()
+		if len(f) == 2 {
+			off := atoi(strings.TrimPrefix(f[1], "-"))
+			if strings.HasPrefix(f[1], "-") {
+				off = -off
+			}
+			t = t.In(time.FixedZone("", off))
+		}
+		o.RequireRecipientValidSince = t
 	}
 	return o
 }
